@@ -848,7 +848,7 @@ def run(ctx: common.Ctx):
         grid += full
     ctx.extra["domain"] = {"corpus": len(corpus), "grid_configurations": len(grid)}
     run_stream(ctx, "corpus", corpus, specs, drv, src, pkg_lang_dir)
-    run_stream(ctx, "grid", grid, specs, drv, src, pkg_lang_dir, budget_s=None if ctx.quick else 900)
+    run_stream(ctx, "grid", grid, specs, drv, src, pkg_lang_dir, budget_s=None if ctx.quick else 780)
 
     pkg_after = fss.snapshot([src / "nunavut"])
     pd = fss.diff(pkg_before, pkg_after)
@@ -875,7 +875,10 @@ def run(ctx: common.Ctx):
     if ctx.quick:
         mcfgs = [mc("c", "lookup"), mc("html", "plain"), mc("py", "lookup", tpl="copy", stpl="shadow")]
     else:
-        mcfgs = [mc(l, ns, tpl, stpl) for l in LANGS for ns in ("plain", "lookup", "random") for tpl, stpl in (("none", "none"), ("copy", "shadow"))]
+        mcfgs = []
+        for l in LANGS:
+            mcfgs += [mc(l, "plain"), mc(l, "lookup"), mc(l, "lookup", "copy", "shadow")]
+            mcfgs.append(mc(l, "random", "copy", "shadow") if l in ("c", "py") else mc(l, "random"))
     ctx.extra["domain"]["mutation_configurations"] = len(mcfgs)
     MutationSearch(ctx, specs, drv).run(mcfgs)
     ctx.exhaustive = False
